@@ -1380,7 +1380,7 @@ void reb_calculate_and_apply_jerk(struct reb_simulation* r, const double v){
             }
             // Interactions between active particles and test particles
 #pragma omp parallel for
-            for (int i=_N_active; i<_N_real; i++){
+            for (int i=MAX(_N_active, starti); i<_N_real; i++){
 #ifndef OPENMP
                 if (reb_sigint > 1) return;
 #endif // OPENMP
